@@ -2,4 +2,5 @@
 MODULES = [
     "specs.helper",
     "specs.types",
+    "specs.generator",
 ]
